@@ -40,6 +40,10 @@ def check(case):
     E = ts.items
     if sk.startswith("internal:"):
         res.count("cross:strict-internal-error")
+        if i is not None and ts.items == [x for x in W[:i]][:len(ts.items)]:
+            # strict mode died of something that is not one of the documented errors while warn mode reports a proper first
+            # problem for the same bytes: "an error of the same class" it is not (C06 will say the rest)
+            res.v("C07.c", "C07.c:class:internal", "%s: first warning %r, strict raised %r" % (label, W[i][1:], ts.exc_sum))
         return res
     if i is None:
         # no warning
